@@ -155,6 +155,56 @@ def work(chunk):
     return acc.pack()
 
 
+def history_pass(G):
+    """for every row: all ordered triples (o1, o2, o1) of option settings on a few marks, every call compared with the oracle"""
+    score = G['score']
+    acc = Acc()
+    esaa_c = dict(A=Decimal(ESAA['A']), Z=Decimal(ESAA['Z']), X=Decimal(ESAA['X']))
+    keys = sorted(G['rows'])
+    for key in keys:
+        g, e = key
+        row = G['rows'][key]
+        hi = grid_hi(G, key)
+        marks = [int(hi * f) for f in (0.35, 0.5, 0.62, 0.8)]
+        opts = [dict(age=None, esaa=False)]
+        if wma_factor(G, g, e, 50) is not None:
+            opts += [dict(age=50, esaa=False), dict(age=72, esaa=False)]
+        opts.append(dict(age=None, esaa=True))          # the ESAA option only changes M-800
+        # rows sharing coefficients (veterans' aliases) are part of the history too
+        partners = [k for k in keys if k != key and G['rows'][k]['ev'] == row['ev'] and k[0] == g]
+
+        def one(k2, cs, o):
+            acc.n += 1
+            r2 = G['rows'][k2]
+            F = wma_factor(G, k2[0], k2[1], o['age'])
+            if F is None:
+                return
+            co = esaa_c if (o['esaa'] and k2 == ('M', '800')) else None
+            want = oracle(G, r2, cs, F, co)[0]
+            try:
+                got = score(k2[0], k2[1], cs / 100.0, o['age'], o['esaa'])
+            except Exception as ex:
+                got = 'raised %r' % ex
+            if got != want:
+                acc.bad('points-depend-on-call-history', dict(gender=k2[0], event=k2[1], mark=cs / 100.0, age=o['age'], esaa=o['esaa'], after=hist[-3:]),
+                        'score=%r, exact formula gives %d, after the calls %r' % (got, want, hist[-3:]))
+            else:
+                acc.nontrivial += 1
+            hist.append([k2[0], k2[1], cs / 100.0, o['age'], o['esaa']])
+        for cs in marks:
+            for o1 in opts:
+                for o2 in opts:
+                    hist = []
+                    one(key, cs, o1)
+                    one(key, cs, o2)
+                    one(key, cs, o1)
+                    for k2 in partners:
+                        one(k2, cs, o2)
+                        one(key, cs, o1)
+    acc.samples.append(dict(history=[['M', '800', 120.0, None, True], ['M', '800', 120.0, None, False], ['M', '800', 120.0, 50, False]]))
+    return acc.pack()
+
+
 FACTOR_AGES_QUICK = [35, 72]
 ALL_BANDS = list(range(35, 116, 5))
 
@@ -198,6 +248,9 @@ def run(tier):
             for a, b in common.split_range(0, top + 1, max(1, (top + 1) // 6000)):
                 chunks.append((k, a, b, [age], False, 1))
     t3 = merge(rep, pmap(work, chunks), part='age bands %r on the full grid of rows with a WMA factor' % (ages,))
+    # (3b) option / call-order histories in ONE process: the points for a mark must not depend on which other
+    # option combinations (age, ESAA, alias rows of the same coefficients) were scored before it
+    merge(rep, [history_pass(G)], part='call-order histories over option settings (one process)')
     # (4) unknown pairs
     acc = Acc()
     for (g, e) in UNKNOWN:
